@@ -283,6 +283,32 @@ func Seed(env *world.Env, name string) *world.World {
 			}
 			b.W = nw
 		}
+	case "refunds-with-call":
+		// mixed, plus refunds of transfers that carried an attached call: the deliveries were
+		// refused because the token was paused on the destination shard / the destination frozen
+		b.fung().sft()
+		b.Must(PauseCall(1, vmcommon.BuiltInFunctionESDTPause, S))
+		b.Must(SysCall(C1, vmcommon.BuiltInFunctionESDTFreeze, F))
+		b.Must(ESDTTransfer(A0, C1, F, 1, []byte("f")))
+		b.Must(NFTTransfer(A0, S1c, S, 1, 1, []byte("f")))
+		b.Must(Multi(A0, S1c, []Ent{{Tok: S, Nonce: 2, Q: 1}, {Tok: F1, Nonce: 0, Q: 1}}, []byte("f"), []byte{7}))
+		for i := 0; i < 3; i++ {
+			idx := -1
+			for j, m := range b.W.Inflight {
+				if !m.Refund {
+					idx = j
+				}
+			}
+			if idx < 0 {
+				panic("seed refunds-with-call: no message to deliver")
+			}
+			nw, legs := b.Env.Step(b.W, Deliver(idx))
+			if legs[0].OK() || legs[0].Refund == nil {
+				panic("seed refunds-with-call: the delivery was expected to be refused and answered by a refund")
+			}
+			b.W = nw
+		}
+		b.Must(PauseCall(1, vmcommon.BuiltInFunctionESDTUnPause, S))
 	case "handover":
 		b.sft()
 		b.Must(SysCall(A0, vmcommon.BuiltInFunctionESDTNFTCreateRoleTransfer, S, C1))
